@@ -492,3 +492,42 @@ pub fn run(spec: &RunSpec<'_>) -> RunOut {
     out.stats = st;
     out
 }
+
+/// Parse a well-formed body with the real blocking connection and hand out the real responses.
+pub fn parse_all(body: &[u8]) -> Result<Vec<Response>, String> {
+    let stats = Rc::new(RefCell::new(ReadStats::default()));
+    let core = Core::new(GREETING, body, &Seg::Whole, StreamEnd::Eof, stats);
+    let mut conn = Connection::connect(ChunkReader(core)).map_err(|e| format!("connect: {:?}", e))?;
+    let mut out = Vec::new();
+    loop {
+        match conn.receive() {
+            Ok(Some(r)) => out.push(r),
+            Ok(None) => return Ok(out),
+            Err(e) => return Err(format!("receive: {:?} after {} responses", e, out.len())),
+        }
+    }
+}
+
+/// Frames of a list response built from abstract frames (through the real parser).
+pub fn frames_via_parser(frames: &[crate::refmodel::wire::AFrame]) -> Result<Vec<mpd_protocol::response::Frame>, String> {
+    if frames.is_empty() {
+        return Ok(Vec::new());
+    }
+    let r = crate::refmodel::wire::AResponse { frames: frames.to_vec(), error: None, form: crate::refmodel::wire::Form::List };
+    let mut rs = parse_all(&r.encode())?;
+    if rs.len() != 1 {
+        return Err(format!("expected one response, got {}", rs.len()));
+    }
+    let resp = rs.pop().unwrap();
+    let mut out = Vec::new();
+    for f in resp {
+        match f {
+            Ok(f) => out.push(f),
+            Err(e) => return Err(format!("unexpected error frame {:?}", e)),
+        }
+    }
+    if out.len() != frames.len() {
+        return Err(format!("parser produced {} frames for {} encoded", out.len(), frames.len()));
+    }
+    Ok(out)
+}
